@@ -204,9 +204,37 @@ fn check(case: &AttrCase, run: &mut Run) -> Result<(), String> {
 fn strategy() -> BoxedStrategy<AttrCase> {
     let form = select(vec!["token", "regex", "skip"]);
     let lit = select(vec!["\"ab\"", "\"a+\"", "b\"xy\"", "\"[a-c]x\"", "r\"k\\d\""]);
-    let pos = prop::option::weighted(0.3, select(vec!["|lex| lex.slice().len()", "my_callback", "logos::skip"]));
+    let pos = prop::option::weighted(
+        0.35,
+        select(vec![
+            "|lex| lex.slice().len()",
+            "my_callback",
+            "logos::skip",
+            "|lex| lex.slice().len() < 3",
+            "|lex| 1 << lex.slice().len()",
+            "|lex| lex.slice().len() > 1 || lex.span().start >= 2",
+            "|lex| { let n = lex.slice().len(); (n, n) }",
+            "my::module::callback",
+        ]),
+    );
     let prio = prop::option::weighted(0.6, 0usize..20).prop_map(|p| p.map(|p| format!("priority = {p}")));
-    let cb = prop::option::weighted(0.4, select(vec!["callback = |lex| lex.slice().len()", "callback = my_callback", "callback = |_| ()"])).prop_map(|c| c.map(|c| c.to_string()));
+    let cb = prop::option::weighted(
+        0.5,
+        select(vec![
+            "callback = |lex| lex.slice().len()",
+            "callback = my_callback",
+            "callback = |_| ()",
+            "callback = |lex| lex.slice().len() < 3",
+            "callback = |lex| lex.slice().len() <= lex.span().end",
+            "callback = |lex| 1usize << lex.slice().len()",
+            "callback = |lex| lex.slice().len() > 1 && lex.span().start < 9",
+            "callback = |lex| lex.slice().parse::<u8>().ok()",
+            "callback = |lex| { let n = lex.slice().len(); if n < 2 { (n, 0) } else { (0, n) } }",
+            "callback = |lex| lex.slice() == \"a\"",
+            "callback = |lex| -> bool { lex.slice().len() < 2 }",
+        ]),
+    )
+    .prop_map(|c| c.map(|c| c.to_string()));
     let ign = prop::option::weighted(0.6, select(vec!["ignore(case)", "ignore(case, case)"])).prop_map(|c| c.map(|c| c.to_string()));
     let greedy = prop::option::weighted(0.4, select(vec!["allow_greedy = true", "allow_greedy = false"])).prop_map(|c| c.map(|c| c.to_string()));
     let items = proptest::collection::vec(
